@@ -186,6 +186,6 @@ U.block("src/buf/writer.rs", "impl<B: BufMut + Sized> io::Write for Writer<B>", 
        r == Ok::<usize, std::io::Error>(n as usize)
        && (*final(self)).spec_buf().rem() == (*old(self)).spec_buf().rem() - n
        && B::put_slice_eff(&(*old(self)).spec_buf(), &(*final(self)).spec_buf(), src@.take(n as int)) }),""",
-                hints=[("before", "Ok(n)", "proof { assert(src@.subrange(0, n as int) =~= src@.take(n as int)); }")]),
+                hints=[("before_tail", "", "proof { assert(src@.subrange(0, n as int) =~= src@.take(n as int)); }")]),
     "flush": Fn(ret="r", spec="ensures r is Ok, (*final(self)).spec_buf() == (*old(self)).spec_buf(),"),
 })
